@@ -125,7 +125,25 @@ func c05Run(x *engine.X) {
 		maxPages = 3
 	}
 	var pages []int
-	for len(pages) < maxPages {
+	streak := false
+	if x.Tier != "thorough" && x.Choose(2, "pagegen") == 1 {
+		streak = true
+		// streaks: a page repeated twice (equal bounds) followed by one other
+		// page, over the null page and the single-value pages - the shape that
+		// the boundary-order computation treats specially
+		n1 := len(t.vals) + 1
+		p, q := x.Choose(n1, "streakpage"), x.Choose(n1, "nextpage")
+		if rep == "required" {
+			if p == 0 {
+				p = 1
+			}
+			if q == 0 {
+				q = 1
+			}
+		}
+		pages = []int{p, p, q}
+	}
+	for len(pages) < maxPages && !streak {
 		c := x.Choose(len(kinds)+1, "page")
 		if c == 0 {
 			break
@@ -360,7 +378,7 @@ func init() {
 	Register(&engine.Prop{
 		ID:    "C05",
 		Level: "exploration",
-		Rule: "18 ordered column types (signed/unsigned ints, float/double with NaN/-0/+-Inf, strings and bytes with 0xFF prefixes, uuid, flba, decimals on int32/int64/flba, date, timestamp, int96, boolean) x {required, optional, repeated} x every sequence of <=2 (3 thorough) pages over the page kinds {all-null, {a}, {a,b}} x row-group cut position x ColumnIndexSizeLimit x page version x statistics options; " +
+		Rule: "18 ordered column types (signed/unsigned ints, float/double with NaN/-0/+-Inf, strings and bytes with 0xFF prefixes, uuid, flba, decimals on int32/int64/flba, date, timestamp, int96, boolean) x {required, optional, repeated} x every sequence of <=2 (3 thorough) pages over the page kinds (quick also: every 3-page streak P,P,Q over the null and single-value pages) {all-null, {a}, {a,b}} x row-group cut position x ColumnIndexSizeLimit x page version x statistics options; " +
 			"non-trivial = >=2 pages",
 		Assumptions: []string{"bounds are judged by pqref from the raw bytes in the column's sort order with NaN ignored, and again through the library's ColumnIndex/Bounds/NullCount accessors"},
 		Bound:       func(string) int { return 0 },
